@@ -104,6 +104,14 @@ fn from_raw<const MAX: usize>(out: &mut Out, r: &mut Rng, lat: &[u64]) {
         if !sl.is_empty() && r.chance(4, 5) {
             sl[0] = 0;
         }
+        // trailing zero entries (padding, or the zero upper half of a low system descriptor) count
+        if sl.len() >= 2 && r.chance(1, 2) {
+            let k = sl.len();
+            sl[k - 1] = 0;
+            if k >= 3 && r.chance(1, 2) {
+                sl[k - 2] = 0;
+            }
+        }
         let g = catch(|| GlobalDescriptorTable::<MAX>::from_raw_entries(&sl));
         match g {
             Some(g) => {
